@@ -113,23 +113,28 @@ def grid_form(chk, fi, c):
             name = t.id if isinstance(t, ast.Name) else (t.attr if isinstance(t, ast.Attribute) else None)
             if name and "freq" in name and isinstance(n.value, ast.BinOp):
                 cand.append(n)
-    if len(cand) != 1:
-        chk.ob("R-FAS-TYPE", c + ".grid-form", "one arithmetic definition of the frequency grid", False, derived="%d found" % len(cand),
+    if not cand:
+        chk.ob("R-FAS-TYPE", c + ".grid-form", "an arithmetic definition of the frequency grid", False, derived="none found",
                inconclusive=True, loc=fi.loc())
         return
-    norm = Normaliser()
-    p = norm.poly(cand[0].value).subst_atoms(lambda a: "dt" if a.endswith(".dt") else a)
-    ok = False
-    why = p.canon()
-    if p.is_monomial():
-        (m, co), = p.t.items()
-        d = dict(m)
-        ar = [a for a in d if a.startswith(("np.arange(", "numpy.arange("))]
-        if len(ar) == 1 and d[ar[0]] == 1:
-            x = ar[0][ar[0].index("(") + 1:-1]
-            ok = co == Fraction(1, 2) and d.get(x) == -1 and d.get("dt") == -1 and len(d) == 3
-    chk.ob("R-FAS-TYPE", c + ".grid-form", "grid = arange(points) / (2 * points * dt)", ok, derived=why, loc=fi.loc(cand[0]),
-           stmt=norm_stmt(cand[0]))
+    seen = set()
+    for cd in cand:             # a definition per branch (or per inlined helper call) is fine: each must have the form
+        norm = Normaliser()
+        p = norm.poly(cd.value).subst_atoms(lambda a: "dt" if a.endswith(".dt") else a)
+        if p.canon() in seen:
+            continue
+        seen.add(p.canon())
+        ok = False
+        why = p.canon()
+        if p.is_monomial():
+            (m, co), = p.t.items()
+            d = dict(m)
+            ar = [a for a in d if a.startswith(("np.arange(", "numpy.arange("))]
+            if len(ar) == 1 and d[ar[0]] == 1:
+                x = ar[0][ar[0].index("(") + 1:-1]
+                ok = co == Fraction(1, 2) and d.get(x) == -1 and d.get("dt") == -1 and len(d) == 3
+        chk.ob("R-FAS-TYPE", c + ".grid-form", "grid = arange(points) / (2 * points * dt)", ok, derived=why, loc=fi.loc(cd),
+               stmt=norm_stmt(cd))
 
 
 def inverse_rules(chk):
@@ -149,7 +154,9 @@ def inverse_rules(chk):
         spec = iff[0].args[0]
         expect(chk, "R-INV-DT", c + ".ifft-input", spec, lin=[R], deg={DT: -1}, dtype="complex", shape=(LinExpr("m").scale(2),),
                tags_has=["conj", "flip", "p:fas"], loc=iff[0].loc)
-        stores = [e for e in r.events("mutation", q) if e.how == "subscript-store" and e.index is not None and e.index.kind == K_SLICE]
+        # events in the entry or in a sibling of the same module it delegates to (fas2signal may simply call fas2values)
+        here = lambda e: e.fn.startswith("eqsig.fns.frequency.")
+        stores = [e for e in r.events("mutation") if here(e) and e.how == "subscript-store" and e.index is not None and e.index.kind == K_SLICE]
         sl = []
         for e in stores:
             lo, up, _ = e.index.items
@@ -162,7 +169,7 @@ def inverse_rules(chk):
         ok_src = all(v.shape is not None and v.shape[0] == LinExpr("m") - 1 for v in srcs) and len(srcs) == 2
         chk.ob("R-INV-DT", c + ".source", "both halves are built from fas[1:]", ok_src, derived="source lengths %s" % [v.shape for v in srcs],
                loc=r.fi.loc())
-        zero = [e for e in r.events("lib-call", q) if e.name == "numpy.zeros"]
+        zero = [e for e in r.events("lib-call") if here(e) and e.name == "numpy.zeros"]
         chk.ob("R-INV-DT", c + ".buffer", "the two-sided buffer is created by np.zeros(2*len(fas), complex)", len(zero) == 1,
                derived="%d zeros calls" % len(zero), loc=r.fi.loc())
         out[q] = (sorted(sl, key=repr), spec.describe((R, DT)))
